@@ -3,6 +3,7 @@ package sim
 import (
 	"fmt"
 	"os"
+	"strings"
 
 	"verifharness/proto"
 )
@@ -31,6 +32,10 @@ func SimC05(c *CheckCtx, i int, r *Rng) error {
 		for _, n := range names {
 			gens = append(gens, DrawScript(r, scfg, m, n))
 		}
+	}
+	if !real && r.P(0.25) {
+		m, names, gens = clashWorld(r, base)
+		c.Env.Stats.Add("probe/import-name-clash-world", 1)
 	}
 	globals := map[string][]string(nil)
 	if !real {
@@ -102,6 +107,20 @@ func SimC13(c *CheckCtx, i int, r *Rng) error {
 		c.Env.Stats.Add("probe/real-module-closure-loaded", 1)
 		return err
 	}
+	if i == 1 {
+		// a synthetic module whose closure contains std packages with vendored dependencies that
+		// have several importers (net/http, crypto/tls -> vendor/golang.org/x/...)
+		m := &ModuleSpec{ModPath: "example.com/web", GoVer: "1.24", Pkgs: []*PkgSpec{{Dir: "srv", Name: "srv", Anchor: "Server",
+			Files: []*SrcFile{{Name: "doc.go", Decls: []*Decl{{Kind: "raw", Name: "raw", Fields: []string{
+				"import (\n\t\"crypto/tls\"\n\t\"net/http\"\n)\n\n// Server wraps the std types.\ntype Server struct {\n\tH *http.Server\n\tC *tls.Config\n}"}}}}}}}}
+		sc := &Scenario{Kind: "universe", Module: m, UniAll: true}
+		for _, s := range []string{"asc", "desc"} {
+			sc.Variants = append(sc.Variants, Variant{Name: "sched:" + s, Ops: []Op{{Kind: "run", Run: &RunOp{Args: proto.GenArgs{Entrypoint: []string{"./srv"}}, Sched: schedOf(s, 3)}}}})
+		}
+		_, err := c.RunScenario(sc, i)
+		c.Env.Stats.Add("probe/vendored-std-closure-loaded", 1)
+		return err
+	}
 	base := drawBase(r)
 	names := Pick(r, genNamePool)
 	cfg := DrawSpecConfig(r, names, base)
@@ -164,4 +183,49 @@ func SimC13(c *CheckCtx, i int, r *Rng) error {
 	c.Env.Stats.Fingerprint(fmt.Sprintf("c13/%d pkgs/%v/%v/%v/%d eps/%s", len(m.Pkgs), l, t, generic, len(eps), m.GoVer))
 	c.Env.Stats.Sample(map[string]any{"sim": i, "module": m.ModPath, "packages": len(m.Pkgs), "entrypoints": args.Entrypoint, "local_shadow": l, "typeparam_shadow": t, "generic": generic}, 3)
 	return nil
+}
+
+// clashWorld builds a module in which import names have to be disambiguated:
+// two packages share their last path segment; one package refers to both from
+// its generated file, another one only to the second. The name a file binds to
+// an import must not depend on what other files of the run imported.
+func clashWorld(r *Rng, base string) (*ModuleSpec, []string, []proto.GenScript) {
+	name := Pick(r, []string{"x", "g1", "alpha"})
+	cfg := DrawSpecConfig(r, []string{name}, base)
+	cfg.PNested, cfg.PStd, cfg.PPre = 0, 0, 0
+	m := &ModuleSpec{ModPath: Pick(r, modPaths), GoVer: Pick(r, goVers)}
+	seg := Pick(r, []string{"model", "types", "v1"})
+	dirs := []string{"x/" + seg, "y/" + seg}
+	users := []string{"a", "b"}
+	if r.P(0.5) {
+		users = []string{"d", "c"} // the package that imports both sorts after the other one
+	}
+	for pi, dir := range append(dirs, users...) {
+		p := &PkgSpec{Dir: dir, Name: dir[strings.LastIndex(dir, "/")+1:]}
+		switch pi {
+		case 2:
+			p.Imports = []int{0, 1}
+		case 3:
+			p.Imports = []int{1}
+			if r.P(0.3) {
+				p.Imports = []int{0}
+			}
+		}
+		p.DocTags = []Tag{{Marker: "+", Key: "gengo:" + name}}
+		drawDecls(r, cfg, p, pi)
+		m.Pkgs = append(m.Pkgs, p)
+	}
+	scfg := DrawScriptConfig(r)
+	scfg.PRefs = 0
+	g := DrawScript(r, scfg, m, name)
+	for pi := 2; pi < 4; pi++ {
+		p := m.Pkgs[pi]
+		key := m.ImportPath(pi) + " " + p.Anchor
+		var parts []proto.Part
+		for k, j := range p.Imports {
+			parts = append(parts, proto.Part{Text: fmt.Sprintf("\nvar Clash%d_%d ", pi, k)}, proto.Part{Ref: m.ImportPath(j) + "." + m.Pkgs[j].Anchor}, proto.Part{Text: "\n"})
+		}
+		g.Rules[key] = proto.Rule{Render: parts}
+	}
+	return m, []string{name}, []proto.GenScript{Probe(), g}
 }
